@@ -126,7 +126,7 @@ class Repeat(Expression):
             gen.writeln("state.checkpoint()")
             gen.writeln(f"if not {first}:")
             with gen.block():
-                gen.writeln(f"parse_trivia(state, {tmp_pairs})")
+                gen.writeln(f"skip_trivia(state, {tmp_pairs})")
             # Parse one item
             self.expression.generate(gen, matched_var, tmp_pairs)
 
@@ -218,7 +218,7 @@ class RepeatOnce(Expression):
             gen.writeln("state.checkpoint()")
             gen.writeln(f"if {count_var} > 1:")
             with gen.block():
-                gen.writeln(f"parse_trivia(state, {tmp_pairs})")
+                gen.writeln(f"skip_trivia(state, {tmp_pairs})")
             # Parse one item
             self.expression.generate(gen, matched_var, tmp_pairs)
 
@@ -235,7 +235,7 @@ class RepeatOnce(Expression):
                 # the sequence and is kept.
                 gen.writeln(f"if {count_var} == 1:")
                 with gen.block():
-                    gen.writeln(f"parse_trivia(state, {pairs_var})")
+                    gen.writeln(f"skip_trivia(state, {pairs_var})")
 
             gen.writeln("else:")
             with gen.block():
